@@ -131,13 +131,28 @@ def run(names, checks, tier):
 
 if __name__ == '__main__':
     ap = argparse.ArgumentParser()
-    ap.add_argument('cmd', choices=['confirm', 'run'])
+    ap.add_argument('cmd', choices=['confirm', 'run', 'table'])
     ap.add_argument('args', nargs='*')
     ap.add_argument('--checks', default='')
     ap.add_argument('--tier', default='quick')
     a = ap.parse_args()
     checks = [c for c in a.checks.split(',') if c]
-    if a.cmd == 'confirm':
+    if a.cmd == 'table':
+        rows = ['| seeded change | property | what it needs to manifest | caught by (quick tier) | missed by |', '|---|---|---|---|---|']
+        for n in sorted(os.listdir(SEEDED)):
+            m = json.load(open(os.path.join(SEEDED, n, 'meta.json')))
+            ck = m.get('checks', {})
+            caught = [c for c, r in sorted(ck.items()) if r.get('detected')]
+            missed = [c for c, r in sorted(ck.items()) if not r.get('detected')]
+            rows.append('| `%s` | %s | %s | %s | %s |' % (n, m['property'], (m.get('needs') or m.get('summary', ''))[:220].replace('|', '/').replace('\n', ' '), ', '.join(caught) or '-', ', '.join(missed) or '-'))
+        block = '\n'.join(rows)
+        p = os.path.join(VERIF, 'DESIGN.md')
+        t = open(p).read()
+        b, e = '<!-- SEEDED-TABLE-BEGIN -->', '<!-- SEEDED-TABLE-END -->'
+        t = t[:t.index(b) + len(b)] + '\n' + block + '\n' + t[t.index(e):]
+        open(p, 'w').write(t)
+        print(block)
+    elif a.cmd == 'confirm':
         name, src = a.args[0], a.args[1]
         if not checks:
             checks = [json.load(open(os.path.join(src, 'meta.json')))['property']]
